@@ -1203,9 +1203,48 @@ def cli_oracles(case, run, real):
     return errs
 
 
-def run_cli_cases(ctx, stream, cases, classify=None, only=None):
+def real_name_assemblies(c):
+    """the real name_assemblies() on the real in-process result: [(key, name, curated, [scaffold names], file)]"""
+    from tola.assembly.assembly import Assembly
+    from tola.assembly.indexed_assembly import IndexedAssembly
+    from tola.assembly.build_assembly import BuildAssembly
+    from tola.assembly.gap import Gap
+    from tola.assembly.scripts.pretext_to_asm import name_assemblies
+    try:
+        in_asm = Assembly("in", scaffolds=[conv.to_real_scaffold(s) for s in c["input"]])
+        ia = IndexedAssembly.new_from_assembly(in_asm)
+        pa = Assembly("ptx", header=[f"HiC MAP RESOLUTION: {c['bpt']} bp/texel"], scaffolds=[conv.to_real_scaffold(s) for s in c["ptx"]])
+        ba = BuildAssembly("out", default_gap=Gap(JOIN_GAP["len"], JOIN_GAP["type"]), autosome_prefix="SUPER_")
+        ba.remap_to_input_assembly(pa, ia)
+        outs = ba.assemblies_with_scaffolds_fused()
+        pre = [{"key": k, "curated": bool(a.curated), "scaffolds": [s.name for s in a.scaffolds]} for k, a in outs.items()]
+        named = name_assemblies(outs, "xx", "1")
+        return pre, {"ok": [{"key": k, "name": a.name, "curated": bool(a.curated), "scaffolds": [s.name for s in a.scaffolds],
+                             "file": f"{a.name}{'.curated' if a.curated else ''}.agp"} for k, a in named.items()]}
+    except Exception as e:
+        return None, {"err": conv.errkind(e)}
+
+
+def run_cli_cases(ctx, stream, cases, classify=None, only=None, names_model=False):
     import fasta_lib as F
     out = ctx.out
+    if names_model:
+        # name_assemblies: real function vs Lean nameAssemblies on the same keys / curated flags / scaffold names
+        reqs, meta = [], []
+        for c in cases:
+            pre, real_named = real_name_assemblies(c)
+            if pre is None:
+                continue
+            reqs.append({"id": 0, "kind": "name_assemblies", "assemblies": pre, "root": "xx", "version": "1", "suffix": ".agp"})
+            meta.append((c, pre, real_named))
+        ms = ctx.driver.batch(reqs) if ctx.driver and reqs else [None] * len(reqs)
+        for (c, pre, real_named), m in zip(meta, ms):
+            inp = {"assemblies": pre}
+            key = ("names", tuple(str(a["key"]) for a in pre), tuple(a["curated"] for a in pre))
+            if m is not None:
+                out.compare(stream + ":name_assemblies", inp, real_named, m, key)
+            else:
+                out.case(stream + ":name_assemblies", inp, key)
     with F.Scratch() as sc:
         for i, c in enumerate(cases):
             real = real_remap(c["input"], c["ptx"], c["bpt"])
